@@ -11,12 +11,15 @@
     (`C10_block_start_same`);
   * formatting is line by line: no line is dropped, duplicated or reordered (`C10_lines_pointwise`,
     `C10_file_lines`).
+  * formatting changes white space only: the formatted line has the same non-white-space characters in the same order
+    (`C10_white_space_only`, excluding lines that end in a dangling `--`, known finding D23);
   NOT proved: the lift of the per-line statements through include expansion and the assembler to
   `generate (format b) = generate b` — checked by the oracle (generate before/after on the real binary).
 -/
 import Crs.Format
 import Crs.Assemble
 import CrsProofs.FormatFile
+import CrsProofs.FormatWs
 import CrsProps.C03
 import CrsProps.C09
 namespace Crs.Props
@@ -526,6 +529,136 @@ theorem C10_file_lines (b out : Bytes) (h : formatFile b = .ok out) :
   · simp only [hh, Bool.false_eq_true, if_false] at h
     obtain ⟨k, hk⟩ := trimTrailingEmpty_prefix ls
     exact ⟨ls, trimTrailingEmpty ls, k, hfl, hpw, Or.inl hk, h.symm⟩
+
+/-! ### white space only -/
+
+theorem hasSuffix_append_self (x s : Bytes) : hasSuffix s (x ++ s) = true := by
+  unfold hasSuffix
+  rw [List.reverse_append]
+  exact List.isPrefixOf_iff_prefix.mpr (List.prefix_append _ _)
+
+/-- **C10 (white space only).** For every line and indentation level, the formatted line and the original line
+    consist of the same non-white-space characters in the same order — unless the line ends, white space disregarded,
+    in `--` (the dangling separator of known finding D23; a sufficient, not a necessary exclusion). -/
+theorem C10_white_space_only (l : Bytes) (i : Nat) (l' : Bytes) (k : Nat)
+    (hl : trimLeftSpTab l = l) (hdd : hasSuffix b!"--" (noWs l) = false) (h : processLine l i = some (l', k)) :
+    noWs l' = noWs l := by
+  by_cases he : l.isEmpty = true
+  · have hp : processLine l i = some (l, i) := by unfold processLine; simp only [hl, he, if_true]
+    rw [hp] at h
+    simp only [Option.some.injEq, Prod.mk.injEq] at h
+    obtain ⟨rfl, rfl⟩ := h
+    rfl
+  have he' : l.isEmpty = false := by simpa using he
+  cases hbs : blockStart? l with
+  | some p =>
+    obtain ⟨kw, arg⟩ := p
+    obtain ⟨hkw, harg⟩ := blockStart?_shape l kw arg hbs
+    have hp : processLine l i = some (indentBy i (emitStart kw arg), i + 1) := by
+      unfold processLine; simp only [hl, he', hbs, Bool.false_eq_true, if_false]; rfl
+    rw [hp] at h
+    simp only [Option.some.injEq, Prod.mk.injEq] at h
+    obtain ⟨rfl, rfl⟩ := h
+    rw [noWs_indentBy, noWs_emitStart kw arg hkw, blockStart?_noWs l kw arg hbs]
+  | none =>
+  by_cases hbe : blockEnd? l = true
+  · have hp : processLine l i = (if i == 0 then none else some (indentBy (i - 1) l, i - 1)) := by
+      unfold processLine; simp only [hl, he', hbs, hbe, Bool.false_eq_true, if_false, if_true]
+    rw [hp] at h
+    split at h
+    · simp at h
+    · simp only [Option.some.injEq, Prod.mk.injEq] at h
+      obtain ⟨rfl, rfl⟩ := h
+      exact noWs_indentBy _ _
+  have hbe' : blockEnd? l = false := by simpa using hbe
+  cases hfl : flags? l with
+  | some v =>
+    have hp : processLine l i = some (emitValue '+' v, i) := by
+      unfold processLine; simp only [hl, he', hbs, hbe', hfl, Bool.false_eq_true, if_false]; rfl
+    rw [hp] at h
+    simp only [Option.some.injEq, Prod.mk.injEq] at h
+    obtain ⟨rfl, rfl⟩ := h
+    rw [noWs_emitValue '+' rfl, valueLine?_noWs '+' rfl l v hfl]
+  | none =>
+  cases hpf : prefix? l with
+  | some v =>
+    have hp : processLine l i = some (emitValue '^' v, i) := by
+      unfold processLine; simp only [hl, he', hbs, hbe', hfl, hpf, Bool.false_eq_true, if_false]; rfl
+    rw [hp] at h
+    simp only [Option.some.injEq, Prod.mk.injEq] at h
+    obtain ⟨rfl, rfl⟩ := h
+    rw [noWs_emitValue '^' rfl, valueLine?_noWs '^' rfl l v hpf]
+  | none =>
+  cases hsf : suffix? l with
+  | some v =>
+    have hp : processLine l i = some (emitValue '$' v, i) := by
+      unfold processLine; simp only [hl, he', hbs, hbe', hfl, hpf, hsf, Bool.false_eq_true, if_false]; rfl
+    rw [hp] at h
+    simp only [Option.some.injEq, Prod.mk.injEq] at h
+    obtain ⟨rfl, rfl⟩ := h
+    rw [noWs_emitValue '$' rfl, valueLine?_noWs '$' rfl l v hsf]
+  | none =>
+  cases hdf : definition? l with
+  | some p =>
+    obtain ⟨n, v⟩ := p
+    obtain ⟨a1, a2, a3, a4⟩ := definition?_shape l n v hdf
+    have hp : processLine l i = some (indentBy i (emitDefine n v), i) := by
+      unfold processLine; simp only [hl, he', hbs, hbe', hfl, hpf, hsf, hdf, Bool.false_eq_true, if_false]; rfl
+    rw [hp] at h
+    simp only [Option.some.injEq, Prod.mk.injEq] at h
+    obtain ⟨rfl, rfl⟩ := h
+    rw [noWs_indentBy, noWs_emitDefine n v a2 a4, definition?_noWs l n v hdf]
+  | none =>
+  cases hin : include? l with
+  | some p =>
+    obtain ⟨n, r⟩ := p
+    obtain ⟨a1, a2, a3⟩ := include?_shape l n r hin
+    have hp : processLine l i = some (indentBy i (emitInclude n r), i) := by
+      unfold processLine; simp only [hl, he', hbs, hbe', hfl, hpf, hsf, hdf, hin, Bool.false_eq_true, if_false]; rfl
+    rw [hp] at h
+    simp only [Option.some.injEq, Prod.mk.injEq] at h
+    obtain ⟨rfl, rfl⟩ := h
+    obtain ⟨dd, e, hcase⟩ := include?_noWs l n r hin
+    rw [noWs_indentBy, noWs_emitInclude n r a2, e]
+    rcases hcase with ⟨rfl, rfl⟩ | rfl
+    · simp [noWs]
+    · by_cases hr : r.isEmpty = true
+      · have : r = [] := by simpa using hr
+        subst this
+        rw [e] at hdd
+        have : noWs ([] : Bytes) = [] := rfl
+        rw [this, List.append_nil, hasSuffix_append_self] at hdd
+        exact absurd hdd (by simp)
+      · simp only [hr, Bool.false_eq_true, if_false, List.append_assoc]
+  | none =>
+  cases hix : includeExcept? l with
+  | some p =>
+    obtain ⟨n, x, r⟩ := p
+    obtain ⟨a1, a2, a3, a4, a5⟩ := includeExcept?_shape l n x r hix
+    have hp : processLine l i = some (indentBy i (emitIE n x r), i) := by
+      unfold processLine; simp only [hl, he', hbs, hbe', hfl, hpf, hsf, hdf, hin, hix, Bool.false_eq_true, if_false]; rfl
+    rw [hp] at h
+    simp only [Option.some.injEq, Prod.mk.injEq] at h
+    obtain ⟨rfl, rfl⟩ := h
+    obtain ⟨dd, e, hcase⟩ := includeExcept?_noWs l n x r hix
+    rw [noWs_indentBy, noWs_emitIE n x r a2, e]
+    rcases hcase with ⟨rfl, rfl⟩ | rfl
+    · simp [noWs]
+    · by_cases hr : r.isEmpty = true
+      · have : r = [] := by simpa using hr
+        subst this
+        rw [e] at hdd
+        have : noWs ([] : Bytes) = [] := rfl
+        rw [this, List.append_nil, hasSuffix_append_self] at hdd
+        exact absurd hdd (by simp)
+      · simp only [hr, Bool.false_eq_true, if_false, List.append_assoc]
+  | none =>
+    have hp : processLine l i = some (indentBy i l, i) := by
+      unfold processLine; simp only [hl, he', hbs, hbe', hfl, hpf, hsf, hdf, hin, hix, Bool.false_eq_true, if_false]
+    rw [hp] at h
+    simp only [Option.some.injEq, Prod.mk.injEq] at h
+    obtain ⟨rfl, rfl⟩ := h
+    exact noWs_indentBy _ _
 
 /-! ### known finding D23 and non-vacuity -/
 
